@@ -3,8 +3,11 @@ package c03
 import (
 	"fmt"
 	"net"
+	"os"
+	"path/filepath"
 	"runtime/debug"
 	"sync"
+	"sync/atomic"
 	"testing"
 	"time"
 
@@ -17,6 +20,8 @@ import (
 // With retries configured, a dial attempt that fails half-way (one peer of the upstream connected, a later one
 // refused) is repeated. When the handler has returned, every upstream connection it opened has been closed - those
 // of the attempts that were given up included.
+var retrySeq atomic.Int64
+
 func TestRetriedAttemptsCloseTheirConnections(t *testing.T) {
 	rapid.Check(t, func(rt *rapid.T) {
 		// peer A accepts from the start and keeps every connection it was given
@@ -54,19 +59,16 @@ func TestRetriedAttemptsCloseTheirConnections(t *testing.T) {
 				}()
 			}
 		}()
-		// peer B refuses at first and starts listening a little later (on the port reserved for it)
-		lnB0, err := hx.Listen("tcp", "127.0.0.1:0")
-		if err != nil {
-			rt.Fatalf("listen: %v", err)
-		}
-		addrB := lnB0.Addr().String()
-		_ = lnB0.Close()
+		// peer B is a Unix socket that does not exist at first and starts listening a little later (a path of its own:
+		// a TCP port "reserved" by listening and closing could be taken by another process in between)
+		addrB := filepath.Join(os.TempDir(), fmt.Sprintf("c03-retry-%d-%d.sock", os.Getpid(), retrySeq.Add(1)))
+		defer os.Remove(addrB)
 		late := time.Duration(rapid.IntRange(60, 250).Draw(rt, "peerBAppearsAfterMs")) * time.Millisecond
 		interval := time.Duration(rapid.IntRange(20, 80).Draw(rt, "tryIntervalMs")) * time.Millisecond
 		bUp := make(chan net.Listener, 1)
 		go func() {
 			time.Sleep(late)
-			ln, err := net.Listen("tcp", addrB)
+			ln, err := net.Listen("unix", addrB)
 			if err != nil {
 				bUp <- nil
 				return
@@ -92,7 +94,7 @@ func TestRetriedAttemptsCloseTheirConnections(t *testing.T) {
 		defer debug.SetGCPercent(debug.SetGCPercent(-1))
 		provMu.Lock()
 		srv, err := rx.Server(rx.BareCtx(), []rx.R{{Handle: []map[string]any{rx.H("proxy",
-			"upstreams", []map[string]any{{"dial": []string{lnA.Addr().String(), addrB}}},
+			"upstreams", []map[string]any{{"dial": []string{lnA.Addr().String(), "unix/" + addrB}}},
 			"load_balancing", map[string]any{"try_duration": "3s", "try_interval": interval.String()})}}}, 5*time.Second)
 		provMu.Unlock()
 		if err != nil {
@@ -120,8 +122,11 @@ func TestRetriedAttemptsCloseTheirConnections(t *testing.T) {
 		lnB := <-bUp
 		if lnB == nil {
 			_ = cli.Close()
-			<-handleDone
-			return // the port was taken by somebody else meanwhile: nothing to judge
+			select {
+			case <-handleDone:
+			case <-time.After(10 * time.Second):
+			}
+			return // peer B could not listen: nothing to judge
 		}
 		defer lnB.Close()
 		time.Sleep(2*interval + 30*time.Millisecond) // the attempt that finds both peers
